@@ -53,6 +53,12 @@ powerpc_regnum (int i)
 void
 powerpc_emit(OrcCompiler *compiler, unsigned int insn)
 {
+  /* the code buffer (orc_compiler_compile_program) holds 64 KiB */
+  if (compiler->codeptr - compiler->code > 65536 - 4) {
+    orc_compiler_error (compiler,
+        "program too large: the generated code does not fit in 65536 bytes");
+    return;
+  }
   if (IS_POWERPC_BE(compiler)) {
     *compiler->codeptr++ = (insn>>24);
     *compiler->codeptr++ = (insn>>16);
@@ -399,6 +405,11 @@ powerpc_do_fixups (OrcCompiler *compiler)
 {
   int i;
   unsigned int insn;
+
+  /* after an error (code buffer or fixup table full) the recorded positions
+   * need not lie inside the code buffer any more */
+  if (compiler->error) return;
+
 
   for(i=0;i<compiler->n_fixups;i++){
     unsigned char *label = compiler->labels[compiler->fixups[i].label];
